@@ -128,14 +128,19 @@ theorem bulksOf_withdraws (w : List Upd) (h : ∀ u ∈ w, ∃ id, u = .withdraw
     obtain ⟨id, rfl⟩ := h u (by simp)
     simp [bulksOf, ih (fun u' hu' => h u' (by simp [hu']))]
 
-/-- **C16 (updates in file order).** For every file made only of BGP4MP
-    messages and state changes (any number, any peers, any variant): the
-    `Bulk` updates that leave the gate are, one for one and in file order, the
-    UPDATE messages of the file with their announcements and withdrawals —
-    none lost, none invented, none reordered — and processing ends normally. -/
-theorem C16_updates_in_order (v : Variant) (parent : Nat) (reg : Reg) (recs : List Rec)
+/-- One UPDATE as RFC 4271 4.3 reads it: "an UPDATE message [that includes] the same address
+    prefix in the WITHDRAWN ROUTES and Network Layer Reachability Information fields [is
+    treated] as though the WITHDRAWN ROUTES do not contain the address prefix": its
+    announcements, and its withdrawals of prefixes it does not announce. -/
+def effective (u : Bool × List Nat × List Nat) : Bool × List Nat × List Nat :=
+  (u.1, u.2.1, u.2.2.filter (fun p => !u.2.1.contains p))
+
+/-- What the code does, for every variant: one `Bulk` per UPDATE, in file order, carrying its
+    announcements and `keptWd` of its withdrawals. -/
+theorem updates_in_order_gen (v : Variant) (parent : Nat) (reg : Reg) (recs : List Rec)
     (h : recs.all Rec.isBgp4mpSupported = true) :
-    ((bulksOf (msgLoop v parent reg recs).out).map fun b => b.2) = (updatesOf recs).map (fun u => u.2) ∧
+    ((bulksOf (msgLoop v parent reg recs).out).map fun b => b.2) =
+      (updatesOf recs).map (fun u => (u.2.1, u.2.2.1, keptWd v u.2.2.1 u.2.2.2)) ∧
     (msgLoop v parent reg recs).status = .ok := by
   induction recs generalizing reg with
   | nil => simp [msgLoop, bulksOf, updatesOf]
@@ -166,6 +171,104 @@ theorem C16_updates_in_order (v : Variant) (parent : Nat) (reg : Reg) (recs : Li
         · simp at hu
     | _ => simp [Rec.isBgp4mpSupported] at hr
 
+/-- The clause at full strength: for every file made only of BGP4MP messages and state
+    changes (any number, any peers), the `Bulk` updates that leave the gate are, one for one
+    and in file order, the UPDATE messages of the file with their announcements and
+    withdrawals as RFC 4271 4.3 reads them — none lost, none invented, none reordered, and a
+    prefix that one UPDATE both withdraws and announces leaves as its announcement only —
+    and processing ends normally. -/
+def C16_updates_full (v : Variant) : Prop :=
+  ∀ (parent : Nat) (reg : Reg) (recs : List Rec), recs.all Rec.isBgp4mpSupported = true →
+    ((bulksOf (msgLoop v parent reg recs).out).map fun b => b.2) = (updatesOf recs).map (fun u => effective u.2) ∧
+    (msgLoop v parent reg recs).status = .ok
+
+/-- **C16 (updates in file order). Repaired (`explode_update` in `process_message`): the
+    clause holds**, whatever the other sites are. -/
+theorem C16_updates_in_order (v : Variant) (hv : v.ov = .repaired) : C16_updates_full v := by
+  intro parent reg recs h
+  have := updates_in_order_gen v parent reg recs h
+  simpa [keptWd, hv, effective] using this
+
+/-- **As written (`explode_announcements` then `explode_withdrawals`)**: one `Bulk` per UPDATE in
+    file order carrying *all* its announcements followed by *all* its withdrawals … -/
+theorem C16_updates_as_written (v : Variant) (hv : v.ov = .asWritten) (parent : Nat) (reg : Reg)
+    (recs : List Rec) (h : recs.all Rec.isBgp4mpSupported = true) :
+    ((bulksOf (msgLoop v parent reg recs).out).map fun b => b.2) = (updatesOf recs).map (fun u => u.2) ∧
+    (msgLoop v parent reg recs).status = .ok := by
+  have := updates_in_order_gen v parent reg recs h
+  simpa [keptWd, hv] using this
+
+/-- … which is the clause on every file none of whose UPDATEs withdraws a prefix it announces
+    (guard, decidable; any variant). -/
+theorem C16_updates_partial (v : Variant) (parent : Nat) (reg : Reg) (recs : List Rec)
+    (h : recs.all Rec.isBgp4mpSupported = true)
+    (hno : ∀ u ∈ updatesOf recs, ∀ p ∈ u.2.2.2, p ∉ u.2.2.1) :
+    ((bulksOf (msgLoop v parent reg recs).out).map fun b => b.2) = (updatesOf recs).map (fun u => effective u.2) ∧
+    (msgLoop v parent reg recs).status = .ok := by
+  have hg := updates_in_order_gen v parent reg recs h
+  refine ⟨?_, hg.2⟩
+  rw [hg.1]
+  apply List.map_congr_left
+  intro u hu
+  have hf : u.2.2.2.filter (fun p => !u.2.2.1.contains p) = u.2.2.2 := by
+    rw [List.filter_eq_self]; intro p hp; simpa using hno u hu p hp
+  simp only [keptWd, effective]
+  cases v.ov
+  · simp only [hf]
+  · rfl
+
+/-- **As written the clause fails**: one UPDATE that withdraws and announces 203.0.113.7/32
+    (prefix number 4) leaves the gate as `+p -p`. The engine replays this file first. -/
+theorem C16_updates_counterexample : ¬ C16_updates_full asWritten := by
+  intro h
+  have := (h 1 ⟨2, []⟩ [.msg ⟨0, 65001⟩ (.update false [4] [4] 1)] (by decide)).1
+  revert this; decide
+
+/-- **An overlapped prefix yields exactly its announcement** (repaired, any file at all, any
+    record mix): no `Bulk` that leaves the gate withdraws a prefix it announces. -/
+theorem C16_overlap_yields_only_announcement (v : Variant) (hv : v.ov = .repaired) (parent : Nat)
+    (reg : Reg) (recs : List Rec) :
+    ∀ b ∈ bulksOf (msgLoop v parent reg recs).out, ∀ p ∈ b.2.2.1, p ∉ b.2.2.2 := by
+  induction recs generalizing reg with
+  | nil => simp [msgLoop, bulksOf]
+  | cons r recs ih =>
+    cases r with
+    | msg q m =>
+      cases m with
+      | update v6 ann wd a =>
+        simp only [msgLoop]
+        split <;>
+          (simp only [bulksOf, List.mem_cons]
+           intro b hb p hp
+           rcases hb with rfl | hb
+           · simp only [keptWd, hv, List.mem_filter] at hp ⊢
+             intro hc; simp [hp] at hc
+           · exact ih _ b hb p hp)
+      | other => simpa [msgLoop] using ih reg
+      | garbage => simpa [msgLoop] using ih reg
+    | stateChange q old new =>
+      simp only [msgLoop]
+      have hw : ∀ w : List Upd, (∀ u ∈ w, ∃ id, u = .withdraw id) →
+          bulksOf (w ++ (msgLoop v parent reg recs).out) = bulksOf (msgLoop v parent reg recs).out := by
+        intro w hw; rw [bulksOf_append, bulksOf_withdraws w hw]; rfl
+      rw [hw]
+      · exact ih reg
+      · intro u hu
+        split at hu
+        · split at hu
+          · simp only [List.mem_singleton] at hu; exact ⟨_, hu⟩
+          · simp at hu
+        · simp at hu
+    | peerIndex ps => simpa [msgLoop] using ih reg
+    | rib v6 pfx es => simpa [msgLoop] using ih reg
+    | ribOther => simpa [msgLoop] using ih reg
+    | localMsg => simp [msgLoop, bulksOf]
+    | otherType => simp [msgLoop, bulksOf]
+
+-- non-vacuity: an UPDATE announcing 4 and 1 and withdrawing 4 and 2 leaves as +4 +1 -2 (repaired), +4 +1 -4 -2 (as written)
+example : (msgLoop repaired 1 ⟨2, []⟩ [.msg ⟨0, 65001⟩ (.update false [4, 1] [4, 2] 1)]).out = [.bulk 2 false [4, 1] [2]] ∧
+    (msgLoop asWritten 1 ⟨2, []⟩ [.msg ⟨0, 65001⟩ (.update false [4, 1] [4, 2] 1)]).out = [.bulk 2 false [4, 1] [4, 2]] := by decide
+
 /-- **C16 (attribution).** An UPDATE of a peer already registered under this
     unit (by an earlier dump or an earlier message) is attributed to that
     peer's id, and the register is left unchanged by it. -/
@@ -173,7 +276,7 @@ theorem C16_attribution_known (v : Variant) (parent : Nat) (reg : Reg) (p : Peer
     (v6 : Bool) (ann wd : List Nat) (a : Nat) (rest : List Rec)
     (h : reg.find (some parent) p = some id) :
     msgLoop v parent reg (.msg p (.update v6 ann wd a) :: rest) =
-      ⟨(msgLoop v parent reg rest).reg, .bulk id v6 ann wd :: (msgLoop v parent reg rest).out, (msgLoop v parent reg rest).status⟩ := by
+      ⟨(msgLoop v parent reg rest).reg, .bulk id v6 ann (keptWd v ann wd) :: (msgLoop v parent reg rest).out, (msgLoop v parent reg rest).status⟩ := by
   simp [msgLoop, h]
 
 /-- … and an UPDATE of an unknown peer registers it (fresh id, this unit as
